@@ -443,45 +443,60 @@ def stage_propagate(ctx):
     from holopy.scattering.errors import MissingParameter
     rng = ctx.subrng("prop")
     exprs, metas = [], []
+    prev = None
     for k in range(ctx.n(60, 400)):
-        r, c = gen_shape(rng, 2, 8 if rng.random() < 0.9 else 20)
-        sx, sy = rng.choice(SPACINGS), rng.choice(SPACINGS)
-        mi0, wl0 = rng.choice(MEDIA)
-        cplx = rng.random() < 0.5
-        seed = rng.randrange(1 << 30)
-        a = gen_data(seed, (r, c), cplx)
-        # metadata: stored in the image, overridden by arguments, or missing
-        mode = rng.choice(["stored", "stored", "stored", "override", "arg-only", "missing"])
-        mi_arg = wl_arg = None
-        mi_im, wl_im = mi0, wl0
-        if mode == "override":
-            mi_arg, wl_arg = rng.choice(MEDIA)
-            if rng.random() < 0.5:
-                wl_arg = None
-        elif mode == "arg-only":
-            mi_im = wl_im = None
-            mi_arg, wl_arg = mi0, wl0
-        elif mode == "missing":
-            if rng.random() < 0.5:
-                mi_im = None
-            else:
-                wl_im = None
-        org = gen_origin(rng)
-        im = mk_image(a, sx, sy, mi_im, wl_im, origin=org)
-        ctx.count("prop:origin:%s" % ("zero" if org == [0, 0] else "offset"))
-        cfsp = rng.choice([0, 0, 0, 1, 2, 3])
-        gf = rng.choice([None, None, None, 0.25, -0.5])
-        islist = rng.random() < 0.5
-        if islist:
-            ds = [gen_dist(rng) for _ in range(rng.choice([1, 2, 3]))]
-            ds = list(dict.fromkeys(ds))
-            nzero = rng.choice([0, 0, 1, 1, 2])
-            for _ in range(nzero):
-                ds.insert(rng.randrange(len(ds) + 1), 0.0)
-            darg = ds
+        twin = prev is not None and k % 4 == 3
+        if twin:
+            # the next image on the SAME grid, propagated by the SAME distances with the same options, but recorded at another
+            # wavelength / in another medium (stored in its metadata, no keyword arguments): a second colour channel, or the
+            # next sample on the same camera
+            r, c, sx, sy, cplx, org, cfsp, gf, islist, ds, darg = prev
+            mi0, wl0 = rng.choice(MEDIA)
+            seed = rng.randrange(1 << 30)
+            a = gen_data(seed, (r, c), cplx)
+            mode, mi_arg, wl_arg, mi_im, wl_im = "stored", None, None, mi0, wl0
+            im = mk_image(a, sx, sy, mi_im, wl_im, origin=org)
+            ctx.count("prop:twin-on-same-grid")
         else:
-            ds = [gen_dist(rng) if rng.random() < 0.9 else 0.0]
-            darg = ds[0]
+            r, c = gen_shape(rng, 2, 8 if rng.random() < 0.9 else 20)
+            sx, sy = rng.choice(SPACINGS), rng.choice(SPACINGS)
+            mi0, wl0 = rng.choice(MEDIA)
+            cplx = rng.random() < 0.5
+            seed = rng.randrange(1 << 30)
+            a = gen_data(seed, (r, c), cplx)
+            # metadata: stored in the image, overridden by arguments, or missing
+            mode = rng.choice(["stored", "stored", "stored", "override", "arg-only", "missing"])
+            mi_arg = wl_arg = None
+            mi_im, wl_im = mi0, wl0
+            if mode == "override":
+                mi_arg, wl_arg = rng.choice(MEDIA)
+                if rng.random() < 0.5:
+                    wl_arg = None
+            elif mode == "arg-only":
+                mi_im = wl_im = None
+                mi_arg, wl_arg = mi0, wl0
+            elif mode == "missing":
+                if rng.random() < 0.5:
+                    mi_im = None
+                else:
+                    wl_im = None
+            org = gen_origin(rng)
+            im = mk_image(a, sx, sy, mi_im, wl_im, origin=org)
+            ctx.count("prop:origin:%s" % ("zero" if org == [0, 0] else "offset"))
+            cfsp = rng.choice([0, 0, 0, 1, 2, 3])
+            gf = rng.choice([None, None, None, 0.25, -0.5])
+            islist = rng.random() < 0.5
+            if islist:
+                ds = [gen_dist(rng) for _ in range(rng.choice([1, 2, 3]))]
+                ds = list(dict.fromkeys(ds))
+                nzero = rng.choice([0, 0, 1, 1, 2])
+                for _ in range(nzero):
+                    ds.insert(rng.randrange(len(ds) + 1), 0.0)
+                darg = ds
+            else:
+                ds = [gen_dist(rng) if rng.random() < 0.9 else 0.0]
+                darg = ds[0]
+        prev = (r, c, sx, sy, cplx, org, cfsp, gf, islist, ds, darg) if mode == "stored" else prev
         meta = dict(case=k, shape=[r, c], spacing=[sx, sy], origin=org, data_seed=seed, complex=cplx, d=darg, cfsp=cfsp,
                     gradient_filter=gf, image_meta=[mi_im, wl_im], arg_meta=[mi_arg, wl_arg], mode=mode)
         try:
@@ -614,6 +629,42 @@ def explore_roundtrip(ctx):
             ctx.violation("ifft:odd-shape" if n % 2 else "ifft:even-shape",
                           "1-D ifft(fft(x)) != x for length %d (relative error %.3g)" % (n, err),
                           dict(kind="roundtrip1d", n=n, data_seed=n, err=err))
+
+
+def explore_deep_stacks(ctx):
+    """reconstruction volumes of realistic size (pixels x distances beyond a million): the slice of a stack at distance d
+    equals the single-distance result, for the plain propagator, cascaded free-space propagation and the gradient filter"""
+    import numpy as np
+    from holopy import propagate
+    rng = ctx.subrng("deep")
+    for k in range(ctx.n(3, 10)):
+        n, nd = rng.choice([(64, 300), (96, 130), (128, 70), (48, 520)])
+        cfsp = rng.choice([0, 0, 2])
+        gf = [0.25, False, -0.5, 0.125][k % 4]
+        sx = rng.choice(SPACINGS)
+        mi, wl = rng.choice(MEDIA)
+        seed = rng.randrange(1 << 30)
+        a = gen_data(seed, (n, n), False)
+        im = mk_image(a, sx, sx, mi, wl)
+        ds = sorted(set(round(rng.uniform(-30, 60), 3) for _ in range(nd)) - {0.0})
+        stack = propagate(im, ds, cfsp=cfsp, gradient_filter=gf)
+        pick = rng.sample(range(len(ds)), 3)
+        scale = float(np.abs(a).max()) * (8 if gf else 1)
+        worst = 0.0
+        for i in pick:
+            one = propagate(im, ds[i], cfsp=cfsp, gradient_filter=gf)
+            sl = stack.isel(z=i)
+            err = _relerr(np.asarray(sl.transpose('x', 'y').values), np.asarray(one.squeeze().transpose('x', 'y').values), scale)
+            worst = max(worst, err)
+        ctx.explored += 1
+        ctx.count("deep-stack:%dx%dx%d" % (n, n, len(ds)))
+        ctx.nontriv(("deep", n, len(ds), cfsp, bool(gf)))
+        if not worst < 1e-10 or [float(z) for z in stack.z.values] != [float(d) for d in ds]:
+            ctx.violation("stack:deep:%s" % (("cfsp" if cfsp else "") + ("gf" if gf else "") or "plain"),
+                          "a slice of a %d-distance reconstruction of a %dx%d image differs from the single-distance reconstruction "
+                          "(relative %.3g; cfsp=%d, gradient_filter=%r)" % (len(ds), n, n, worst, cfsp, gf),
+                          dict(kind="deep-stack", shape=[n, n], spacing=sx, medium=[mi, wl], data_seed=seed, distances=ds,
+                               picked=pick, cfsp=cfsp, gradient_filter=gf, err=worst))
 
 
 def gen_prop_case(rng, maxn):
@@ -819,6 +870,7 @@ def run(ctx):
     if ok:
         timed(ctx, "propagate", stage_propagate, ctx)
         timed(ctx, "explore", explore_propagate, ctx)
+        timed(ctx, "deep-stacks", explore_deep_stacks, ctx)
     else:
         ctx.notes.append("propagate stages skipped: the smoke call failed")
 
